@@ -5,7 +5,7 @@ PROP = "C11"
 PROPS_FILES = ["Nic/Props/C11.lean"]
 HARNESS = "vh-configs"
 PARALLEL = 8
-RULE = ("histories (3..15 ops) of add/update/delete/lookup over Secrets of every supported type (TLS, JWK, htpasswd, CA, OIDC, API key) and an "
+RULE = ("histories (3..15 ops) of add/update/delete/lookup over Secrets (each object with a metadata.uid; a re-created object has a new one, also when the delete never reached the store) of every supported type (TLS, JWK, htpasswd, CA, OIDC, API key) and an "
         "unsupported one, with real payloads generated offline (valid key pairs, mismatched pairs, non-PEM data, missing keys, duplicate API "
         "keys), names over {a,b,c,b-c,b-ca.crt,...} in namespaces {a,a-b} so that derived file names collide whenever the scheme allows; driven "
         "through the real LocalSecretStore + Configurator + LocalManager on a temporary secrets directory. After every op the directory "
@@ -43,6 +43,17 @@ def gen_case(rng, maxops=15):
     ver = {}
     lastok = {}   # key -> (typ, version) of the last valid content
     ops = []
+    uid = {}      # key -> metadata.uid of the current object
+    nuid = [0]
+
+    def obj(k):
+        # a new object (new metadata.uid) after a delete, and — one update in four — a delete and re-create under the same name
+        # that reaches the store as ONE update (the delete event was coalesced away by the queue or a relist): seed C11-6
+        if k not in live or rng.chance(1, 4):
+            nuid[0] += 1
+            uid[k] = "u%d" % nuid[0]
+        return uid[k]
+
     for _ in range(3 + rng.below(maxops - 2)):
         r = rng.below(10)
         k = rng.choice(KEYS)
@@ -54,20 +65,40 @@ def gen_case(rng, maxops=15):
             if k in lastok and lastok[k][0] == typ and rng.chance(1, 3):
                 # the earlier valid content comes back byte for byte (a bad update is reverted, or the same manifest is applied
                 # again after a delete): the file has to be there again (seed C11-4)
+                u = obj(k)
                 live[k] = typ
-                ops.append("a|%s|%s|%s|ok|%d" % (k[0], k[1], typ, lastok[k][1]))
+                ops.append("a|%s|%s|%s|ok|%d|%s" % (k[0], k[1], typ, lastok[k][1], u))
                 continue
+            u = obj(k)
             live[k] = typ
             ver[k] = ver.get(k, -1) + 1
             pl = rng.choice(PAYLOADS[typ])
             if pl == "ok":
                 lastok[k] = (typ, ver[k])
-            ops.append("a|%s|%s|%s|%s|%d" % (k[0], k[1], typ, pl, ver[k]))
+            ops.append("a|%s|%s|%s|%s|%d|%s" % (k[0], k[1], typ, pl, ver[k], u))
         elif r < 8:
             ops.append("g|%s" % ks)
         else:
             live.pop(k, None)
             ops.append("d|%s" % ks)
+    return "sec ops=%s" % ";".join(ops)
+
+
+def gen_replaced_case(rng):
+    """A materialised secret is deleted and re-created under the same name (new metadata.uid) and the store sees that as a single
+    update: the new object is valid (the file must carry the new content) or invalid (the file must go); then it is deleted."""
+    k = rng.choice(KEYS)
+    typ = rng.choice(["tls", "jwk", "htp", "ca"])
+    bad = {"tls": ["mismatch", "nonpem", "missing"], "jwk": ["missing"], "htp": ["missing"], "ca": ["nonpem", "missing"]}[typ]
+    ops = ["a|%s|%s|%s|ok|0|u1" % (k[0], k[1], typ), "g|%s/%s" % k]
+    if rng.chance(1, 2):
+        ops.append("a|%s|%s|%s|ok|1|u1" % (k[0], k[1], typ))
+    pl = rng.choice(["ok", rng.choice(bad)])
+    ops.append("a|%s|%s|%s|%s|2|u2" % (k[0], k[1], typ, pl))
+    if rng.chance(1, 2):
+        ops.append("g|%s/%s" % k)
+    if rng.chance(2, 3):
+        ops.append("d|%s/%s" % k)
     return "sec ops=%s" % ";".join(ops)
 
 
@@ -127,6 +158,7 @@ def gen(rng, tier):
     n = 300 if tier == "quick" else 3000
     cases = [dict(line=gen_case(rng, 15 if tier == "quick" else 25), tags=["history"]) for _ in range(n)]
     cases += [dict(line=gen_revert_case(rng), tags=["revert"]) for _ in range(n // 4)]
+    cases += [dict(line=gen_replaced_case(rng), tags=["replaced-object"]) for _ in range(n // 6)]
     cases += [dict(line=gen_prefix_case(rng), tags=["prefix-names"]) for _ in range(n // 3)]
     return cases
 
